@@ -604,7 +604,11 @@ class Lower:
 
     def ref_arg(self, a, x):
         """address of an argument bound to a reference parameter; a temporary (call result, literal) is materialised first"""
-        if re.match(r'^\(?\w+\(.*\)\)?$', x) and not x.startswith('(*') and not x.startswith('((') or x.startswith('((struct') or re.match(r'^\(*-?\d', x) \
+        core = a
+        while core.get('kind') in ('MaterializeTemporaryExpr', 'ImplicitCastExpr', 'ExprWithCleanups') and self.inner(core):
+            core = self.inner(core)[0]
+        enum_const = core.get('kind') == 'DeclRefExpr' and (core.get('referencedDecl') or {}).get('kind') == 'EnumConstantDecl'   # T&& bound to an enumerator
+        if enum_const or re.match(r'^\(?\w+\(.*\)\)?$', x) and not x.startswith('(*') and not x.startswith('((') or x.startswith('((struct') or re.match(r'^\(*-?\d', x) \
                 or re.match(r'^\(*"', x) \
                 or re.match(r'^\(*\((?:unsigned |signed )?\w+\)\(*-?\d+\)*$', x):     # a string literal / a cast literal bound to a const reference
             ct = self.ctype(a['type'])
